@@ -286,8 +286,12 @@ func bucket(now, dl time.Time) string {
 // do executes one request, judges it and updates the client. Returns false when the history
 // must stop (a violation that leaves the specification out of sync).
 func (h *hist) do(rq *request) bool {
-	if rq.Fault != "" && h.vs != nil && h.parent == nil {
+	if rq.Fault != "" && rq.Fault != "delete-outage" && h.vs != nil && h.parent == nil {
 		return h.doFaulted(rq)
+	}
+	delFault := rq.Fault == "delete-outage" && h.vs != nil && h.parent == nil
+	if rq.Fault == "delete-outage" && !delFault {
+		rq.Fault = ""
 	}
 	e, w := h.e, h.w
 	cl := h.clients[rq.Client]
@@ -325,7 +329,38 @@ func (h *hist) do(rq *request) bool {
 	}
 	h.trace = append(h.trace, line)
 	conn := "-"
-	if e.Guard(h.c, "panic|session", h.detail(), func() { resp, conn = h.drive(h.buildReq(rq)) }) {
+	if delFault {
+		// every Storage.Delete of this request fails; reads and writes work
+		h.trace[len(h.trace)-1] += " FAULT=delete-outage"
+		base := h.vs.Calls("delete")
+		h.vs.Faults = nil
+		for i := 1; i <= 64; i++ {
+			h.vs.Faults = append(h.vs.Faults, vstore.Fault{Kind: "delete", N: base + i})
+		}
+		panicked := ""
+		func() {
+			defer func() {
+				if r := recover(); r != nil {
+					panicked = fmt.Sprint(r)
+				}
+			}()
+			resp, conn = h.drive(h.buildReq(rq))
+		}()
+		failed := h.vs.Calls("delete") - base
+		h.vs.Faults = nil
+		e.Stat("fault-requests|delete-outage", 1)
+		if failed > 0 {
+			e.Stat("fault-requests|delete-outage|with-a-failed-delete", 1)
+		}
+		if panicked != "" {
+			// the middleware panics when its lookup fails: an error answer, state unknown
+			e.Eval(1)
+			e.Stat("histories-ended-without-verdict(error under delete fault)", 1)
+			h.trace[len(h.trace)-1] += " -> panic: " + panicked
+			h.stopped = true
+			return false
+		}
+	} else if e.Guard(h.c, "panic|session", h.detail(), func() { resp, conn = h.drive(h.buildReq(rq)) }) {
 		return false
 	}
 	if conn != "-" {
@@ -352,6 +387,11 @@ func (h *hist) do(rq *request) bool {
 			seenAlive = "alive"
 		}
 		e.Stat("window-not-judged|"+preWhy+"|"+seenAlive, 1)
+	}
+	if j.unknown {
+		e.Stat("histories-ended-without-verdict(error under delete fault)", 1)
+		h.stopped = true
+		return false
 	}
 	if j.saveFailed {
 		e.Stat("requests-with-failed-save(answer not judged)", 1)
@@ -914,6 +954,11 @@ func runGenerated(e *ev.Env, c *ev.Case) {
 			if xr.Chance(3, 4) {
 				rq.Post = append(rq.Post, op{K: "save"})
 			}
+		} else if h.vs != nil && xr.Chance(1, 12) {
+			// the storage cannot delete while this request runs (ordinary script: destroy,
+			// regenerate, reset, Store.Delete, GetByID of sessions past their absolute timeout …)
+			rq.Fault = "delete-outage"
+			rq.Ops = h.genOps(r, ci, mw, id, r.Range(1, 5))
 		} else if h.vs != nil && id != "" && xr.Chance(1, 8) {
 			// the storage cannot be read while this request presents its id
 			rq.Fault = []string{"get-first", "get-outage"}[xr.Intn(2)]
